@@ -27,7 +27,7 @@ def scenarios(draw):
     handlers = []
     for i in range(draw(st.integers(1, 2))):
         handlers.append({'kind': 'resume', 'id': f'r{i}', 'deleted': draw(st.sampled_from([None, None, True])),
-                         'script': draw(cl.outcome_scripts(delays, max_len=2, kinds=('ok', 'temp', 'err'))), 'backoff': 3.0,
+                         'script': draw(cl.outcome_scripts(delays, max_len=2, kinds=('ok', 'temp', 'err', 'perm'))), 'backoff': 3.0,
                          'duration': draw(st.sampled_from([0, 0, 1.0]))})
     handlers.append({'kind': 'create', 'id': 'c', 'script': draw(cl.outcome_scripts(delays, max_len=1, kinds=('ok', 'temp'))), 'duration': 0})
     if draw(st.booleans()):
@@ -82,9 +82,10 @@ def check(run, res):
             calls = [c for c in sim.trace if c.get('k') == 'call' and c['inc'] == name and c['uid'] == uid and c['hid'] in hs and hs[c['hid']]['kind'] == 'resume']
             for h in resumes:
                 mine = [c for c in calls if c['hid'] == h['id']]
-                oks = [c for c in mine if c['outcome'] == 'ok']
+                # "runs to completion": it succeeded, or it failed for good (a permanent error ends it just as well)
+                oks = [c for c in mine if c['outcome'] in ('ok', 'perm')]
                 if len(oks) > 1:
-                    res.fail('C14/resumed-twice', f'{name}: resume handler {h["id"]} succeeded {len(oks)} times for {vers[0]["name"]} ({uid}) at t={[c["t0"] for c in oks]}')
+                    res.fail('C14/resumed-twice', f'{name}: resume handler {h["id"]} ran to completion {len(oks)} times for {vers[0]["name"]} ({uid}) at t={[(c["t0"], c["outcome"]) for c in oks]}')
                 if uid not in listed0:
                     if mine:
                         res.fail('C14/resumed-object-from-stream', f'{name}: resume handler {h["id"]} ran for {vers[0]["name"]} ({uid}) which was not in the initial listing (first seen through the stream)')
